@@ -46,6 +46,49 @@ R = {
  "C19-2": ("(first batch)", ["C19"], "caught", "", ["constant/value-unchanged"]),
  "C20-1": ("(first batch)", ["C20"], "caught", "", ["contains-iff-inserted", "prefix-query/result-count"]),
  "C20-2": ("(first batch)", ["C20"], "caught", "", ["prefix-query/longest-common-prefix-length", "go-panic:slice bounds out of range@autoCompleteCallback"]),
+
+ # ---- third and fourth batches (agents asked to avoid the obvious and to report defects of the unchanged tree) ----
+ "C01-4": ("the function's own name is looked up before its parameters and locals", ["C01"], "missed", "W programs with a local / parameter named like the function", ["reference/error-outcome", "reference/printed-output"]),
+ "C01-5": ("the value of a counted loop is copied out of the register once, after the loop", ["C01"], "missed", "W programs observing the value of a loop whose later iterations continue / break", ["reference/printed-output"]),
+ "C02-3": ("compact separator: glue check before the ;-rule (a--; -b prints a-- -b)", ["C02"], "caught (statement-pair family)", "", ["roundtrip/tree-changed#statement pair: <expression statement> then -b|compact (2 labels)"]),
+ "C02-4": ("a newline ends a bare return (printer not updated)", ["C02"], "missed", "bare return / break / continue and postfix statements as the first statement of the pair family", ["roundtrip/printed-form-does-not-parse#statement pair: ... (30 labels)"]),
+ "C03-3": ("\\x escape decoded as a rune (strings with raw non-UTF-8 bytes)", ["C03"], "missed (the printed form of a symbolic string was an opaque atom: paths inconclusive)", "string-content skeletons run with strconv.Quote executed byte by byte (no atoms)", ["fixpoint/second-format-differs#s = \"@\"|normal (4 labels)"]),
+ "C03-4": ("m.\"key\" printed as m.key when the key looks like a name (keywords forgotten)", ["C03"], "missed", "quoted dot keys spelling every keyword and builtin", ["fixpoint/second-format-differs#m.\"break\" = 1|normal (many labels)"]),
+ "C03-5": ("return; accepted by the parser", ["C03"], "caught", "", ["fixpoint/second-format-differs#statement pair: ... (29 labels)"]),
+ "C04-3": ("function-generation check only at the outermost call", ["C04"], "caught", "", ["memoization/printed-output", "memoization/result-value"]),
+ "C04-4": ("never-memoized result kinds checked before the get-miss propagation (rebased on the repaired tree)", ["C04"], "caught (sessions added in the same round, from the agent's reading of the base tree)", "", ["memoization/result-type", "memoization/result-value"]),
+ "C05-3": ("loop variable written back from the Go counter instead of the register", ["C05"], "caught (sessions added in the same round)", "", ["registers#for i = 3 {i = i * 10} | i/result-value (3 labels)"]),
+ "C05-4": ("statement x++ rewritten to ++x on the register", ["C05"], "caught (sessions added in the same round)", "", ["registers#for i = 3 {i++}/result-value (4 labels)"]),
+ "C06-3": ("append fast path for a new largest key in map index assignment", ["C06"], "caught (skeletons added in the same round)", "", ["alias/large-container/other-binding-unchanged"]),
+ "C06-4": ("map literal values evaluated without dereferencing", ["C06"], "caught (skeletons added in the same round)", "", ["alias/large-container/other-binding-unchanged", "alias/small-container/other-binding-unchanged"]),
+ "C07-3": ("register availability decided once per call", ["C07"], "caught", "", ["go-panic:No more registers available for k@(*object.Environment).MakeRegister"]),
+ "C07-4": ("Hashable no longer looks at the keys of small maps", ["C07"], "missed, then ENGINE-MISMATCH (the runtime reports 'hash of unhashable', the executor's map model 'comparing uncomparable')", "containers of every kind as arguments of user functions; the two panic classes are one for replay", ["go-panic:comparing uncomparable@(eval.Cache).Get"]),
+ "C08-3": ("error line excerpt for long lines (negative repeat count)", ["C08"], "missed (needs a line longer than 200 bytes)", "7 long-line skeletons with one arbitrary byte", ["go-panic:strings: negative Repeat count@strings.Repeat"]),
+ "C08-4": ("index depth counter instead of the bracket-kind stack", ["C08"], "caught", "", ["total/tree-has-a-missing-child"]),
+ "C09-3": ("context polled every 256 evaluated nodes", ["C09"], "check killed (the executor ran out of memory on a runaway path)", "per-path undo-log bound and a memory watchdog that keeps what was found; caught by the output-clocked cancellation harness", ["cancel-at-output/returns-an-error"]),
+ "C09-4": ("depth limit enforced in applyFunction only", ["C09"], "missed", "5 programs recursing through the eval extension (extensions-package harness, non-termination label)", ["depth/recursion-not-stopped-by-the-depth-limit"]),
+ "C10-3": ("a loop that fails with an error keeps its register", ["C10"], "caught (invariant added in the same round)", "", ["session/state-not-back-at-top-level/root-scope-still-holds-registers"]),
+ "C10-4": ("Reset() after a recovered panic also drops the memoization cache", ["C10"], "missed", "histories with log() inside a memoized function (log lines are not replayed on a cache hit)", ["session/later-input-prints-differently"]),
+ "C11-3": ("Cmp returns the length difference for arrays and maps", ["C11"], "missed", "container keys of 0..3 elements", ["append/equals-rebuilt", "delete/equals-rebuilt", "rest/equals-rebuilt"]),
+ "C11-4": ("del() of a map entry tests presence through the lookup helper (nil values)", ["C11"], "missed, then not reached (budget cut the run before the new jobs)", "language-level map programs with nil / zero / false / empty values; cheap jobs first; larger budget", ["mapeval/del-reports-presence/result-value"]),
+ "C12-3": ("small-map fast path in Cmp orders maps differently from the generic path", ["C12"], "missed", "two-pair maps in both representations, every arrangement of a triple", ["cmp/transitive"]),
+ "C12-4": ("identical-key shortcut in map comparison panics on uncomparable keys", ["C12"], "missed", "maps keyed by functions, large arrays, arrays of functions", ["go-panic:comparing uncomparable@object.Cmp"]),
+ "C13-3": ("a macro closes over the session environment", ["C13"], "moot: after repair f2641ff (parameters bound for the expansion only) the change no longer breaks the property (its demonstration passes)", "", []),
+ "C13-4": ("macro argument count check only rejects too few arguments", ["C13"], "missed", "calls with too many / too few arguments against the error the expansion must produce", ["macro/expansion-differs-from-hand-substitution"]),
+ "C14-3": ("compact printer drops the separator before a statement starting with [", ["C14"], "caught", "", ["load/line-does-not-evaluate#none:func f(a){...; [a, {a:a}, \"s\"][0]}"]),
+ "C14-4": ("AutoLoad sizes its line buffer from MaxValueLen", ["C14", "C18"], "missed (the auto-save / auto-load path with a value-length limit was not exercised)", "VerifAutoSaveLong in the C18 check: named functions beyond the limit, strings under it", ["C18 long/auto-load-restores-something-else"]),
+ "C15-3": ("raw-string fast path forgets to consume an unterminated raw string", ["C15"], "missed", "programs with raw strings holding text that is not code", ["continuation/error-on-incomplete-input"]),
+ "C15-4": ("DefineMacros skips the statement after a macro definition (slices.Delete)", ["C15"], "missed twice: the whole-script run erroring was taken as outside the property; then slices.Delete's clear() was unsupported by the executor", "errors in exactly one of the two runs are violations; clear on slices", ["incremental/error-only-in-one-go"]),
+ "C16-3": ("whitespace test replaced by unicode.IsSpace", ["C16"], "caught", "", ["had-whitespace-flag", "blockcomment/starts", "end-marker-before-end-of-input (9 labels)"]),
+ "C16-4": ("literals longer than 128 bytes are no longer interned", ["C16"], "missed (beyond the byte bound)", "long-token jobs: 15..1025 bytes around every power of two, one arbitrary byte", ["long/interning-same-pointer"]),
+ "C17-3": ("load() falls back to the directory of the running script", ["C17"], "missed", "the same jobs with the program running as the script sub/main.gr; the solver finds the name x of the bait sub/x.gr", ["restricted/load-read-a-foreign-file"]),
+ "C17-4": ("save() through a temp file that leaks when the rename fails", ["C17"], "missed", "a directory named like an allowed file among the baits; directories in the fs model", ["restricted/created-file-has-plain-gr-name"]),
+ "C18-3": ("fixed temporary file name, opened without truncation", ["C18"], "caught (history harness added in the same round)", "", ["history/completed-save-is-not-the-new-state", "autosave/other-file-touched"]),
+ "C18-4": ("previous state file removed just before the rename", ["C18"], "caught (history harness: temp file vanishes before the rename)", "", ["history/failed-save-removed-the-state-file"]),
+ "C19-3": ("CopyMap decides from the map's length instead of its representation", ["C19"], "missed", "constants that are large-representation maps with few entries", ["constant/value-unchanged"]),
+ "C19-4": ("Constant() accepts _ only in the middle", ["C19"], "missed", "other spellings of a constant name (K_, MAX_, A_B_, K9, K__, K_1, X)", ["constant/value-unchanged"]),
+ "C20-3": ("trie.Insert marks the node it ended on after the loop (empty word becomes a member)", ["C20"], "caught", "", ["contains-iff-inserted", "completion/result-is-prefix-of-a-defined-word"]),
+ "C20-4": ("identifiers recorded for completion before the assignment is validated", ["C20"], "missed", "VerifCompletionIds: 10 interpreter sessions, a probed name is offered exactly when bound, variables never as calls", ["registration/variable-offered-as-a-call"]),
 }
 root = os.path.join(os.path.dirname(os.path.abspath(__file__)), "..", "seeded")
 print("| seed | change | first run | strengthened | caught by (labels) |")
